@@ -142,6 +142,14 @@ def resolver_oracle(ix: Index, scn: dict) -> list[Violation]:
         if held:
             continue
         out.append(Violation("created-instance-left-open", "client" if client_ops else "resolve", f"zeroconf instance {zc} created by the library was never closed"))
+    # ... and not before: an instance the library created and handed out (zm.get) stays open while its holder has not
+    # asked the manager to close it - a lookup through the same manager in between must leave it alone
+    for ev in ix.h:
+        if ev[3] == "azc_close_begin" and ev[4]["owner"] == "lib":
+            for g in explicit_get:
+                if g.value and g.value.get("zc") == ev[4]["zc"] and g.s1 < ev[0] and not any(g.s1 < c.s0 < ev[0] for c in closes) and not any(c.s0 < ev[0] and (c.s1 is None or ev[0] < c.s1) for c in closes):
+                    out.append(Violation("created-instance-closed-while-in-use", "", f"the library-created zeroconf instance {ev[4]['zc']} handed out by the manager was closed while still in use (no close was requested)"))
+                    break
     # after zm.close the manager must be usable again and hold nothing stale
     for i, op in enumerate(ix.ops):
         if op.do == "zm.get" and op.ok and op.value and op.value.get("closed"):
